@@ -6,9 +6,13 @@ Driver for the `commit` correspondence family (C10).
 
 ```
 SCRIPT := <puller> <comp none|zstd> <fmt beve|raw> <open ok|err|cut> <verify ok|rej> <trailer N>
-          <dest old|none|dir|olds|nones> <stop -|N> <dec -|err|H> wire <resp>…
+          <dest old|none|dir|olds|nones> <stop -|N> <dec -|err|B> <fault -|N|sync> wire <resp>…
   puller := file | bevezst | beve | trailer | fileasync | verifiedasync | trailerasync
-  resp   := c:<H>:<0|1>  (chunk body, last flag) | e (error response) | x (connection cut)
+  resp   := c:<B>:<0|1>  (chunk body, last flag) | e (error response) | x (connection cut)
+  B      := <H> (hex) | g<seed>.<len> (`genBytes seed len`, for large bodies)
+  fault  := N: the temp file takes N bytes and the write of the next one fails (the pulling child runs
+            under RLIMIT_FSIZE = N with SIGXFSZ ignored: EFBIG); sync: every write succeeds and fsync
+            fails (the temp path is planted as a symlink to /dev/null: EINVAL)
   dec    := what the zstd decoder makes of the bytes delivered before the stream ends or breaks
             (recorded by the harness with the zstd crate; `err` = not a whole frame, `-` = not compressed),
             `dest dir` = destination is a non-empty directory (rename must fail); `olds`/`nones` = as
@@ -35,12 +39,20 @@ def pullerOf : String → Option Puller
   | "verifiedasync" => some .verifiedAsync | "trailerasync" => some .trailerAsync
   | _ => none
 
+/-- hex, or `g<seed>.<len>` -/
+def bodyOf (s : String) : Option Bytes :=
+  if s.startsWith "g" then
+    match (s.drop 1).toString.splitOn "." with
+    | [a, b] => if a.isNat ∧ b.isNat then some (genBytes (natOf a) (natOf b)) else none
+    | _ => none
+  else bytesOfHex s
+
 def respOf (s : String) : Option Resp :=
   if s = "e" then some .error
   else if s = "x" then some .cut
   else match s.splitOn ":" with
     | ["c", h, l] =>
-      match bytesOfHex h, l with
+      match bodyOf h, l with
       | some b, "0" => some (.chunk b false)
       | some b, "1" => some (.chunk b true)
       | _, _ => none
@@ -61,23 +73,25 @@ def compOf : String → Option Comp
   | "none" => some .none | "zstd" => some .zstd | _ => none
 
 def decOf (d : String) : Option (Option Bytes) :=
-  if d = "-" ∨ d = "err" then some none else (bytesOfHex d).map some
+  if d = "-" ∨ d = "err" then some none else (bodyOf d).map some
 
 /-- Parse the SCRIPT words (everything after the index). Returns the parsed script and the words after
 the wire (`:: …`). -/
 def parseScript (ws : List String) : Option (Parsed × List String) :=
   match ws with
-  | pu :: co :: fm :: op :: ve :: tr :: de :: st :: dc :: "wire" :: rest =>
+  | pu :: co :: fm :: op :: ve :: tr :: de :: st :: dc :: wf :: "wire" :: rest =>
     let wireWs := rest.takeWhile (· ≠ "::")
     let after := (rest.dropWhile (· ≠ "::")).drop 1
     match pullerOf pu, compOf co, allSome (wireWs.map respOf), decOf dc with
     | some p, some comp, some wire, some dec =>
       if (fm = "beve" ∨ fm = "raw") ∧ (op = "ok" ∨ op = "err" ∨ op = "cut") ∧ (ve = "ok" ∨ ve = "rej")
-          ∧ (de = "old" ∨ de = "none" ∨ de = "dir" ∨ de = "olds" ∨ de = "nones") ∧ tr.isNat ∧ (st = "-" ∨ st.isNat) then
+          ∧ (de = "old" ∨ de = "none" ∨ de = "dir" ∨ de = "olds" ∨ de = "nones") ∧ tr.isNat ∧ (st = "-" ∨ st.isNat) ∧ (wf = "-" ∨ wf = "sync" ∨ wf.isNat) then
         let stop := if st = "-" then none else some (natOf st)
         if stop.isSome ∧ !p.usesWriteFile then none else
         some (⟨p, { openOk := op = "ok", comp := comp, beve := fm = "beve", wire := wire, stop := stop,
-                    verifyOk := ve = "ok", trailer := natOf tr, renameOk := de ≠ "dir" },
+                    verifyOk := ve = "ok", trailer := natOf tr, renameOk := de ≠ "dir",
+                    writeFault := if wf = "-" ∨ wf = "sync" then none else some (natOf wf),
+                    syncOk := wf ≠ "sync" },
                 ⟨fun _ => dec, fun _ => []⟩, de = "olds" ∨ de = "nones"⟩, after)
       else none
     | _, _, _, _ => none
